@@ -1,2 +1,3 @@
 import Audit.C11
 import Audit.C10
+import Audit.C09
